@@ -38,7 +38,7 @@ ASSUMPTIONS = [
     "`fields` reaching a non-structure, mapping `fields` lacking the union member, ArrayProxy against ints/Consts "
     "or used as one value (test_assign: 'Arrays are troublesome and defeat some checks')",
     "failures whose verdict hinges on a single-value View with mismatching width carry the region key "
-    "'assign:single-field-view-unwrap-skips-width-check' (genuine defect, see replays/C40/finding-*.json)",
+    "a width mismatch behind an unwrapped single-field View is accepted either way ('soft'): docstring and established use disagree",
 ]
 
 MODES = ["COMMON", "LHS", "RHS", "ALL"]
@@ -566,8 +566,13 @@ class Ref:
             if l_view or r_view or (l_explicit and r_explicit):
                 if lw != rw:
                     if (l_view and _single_chain(l)) or (r_view and _single_chain(r)):
-                        self.region = REGION
-                    raise MustRaise(f"bit widths differ ({lw} vs {rw}) and a width check is documented")
+                        # A View holding a single field is unwrapped to that field before the check.  The docstring
+                        # ("checked if any side is a View") and the behaviour the library's own users and tests rely
+                        # on (`return arg + 1` into a one-field output layout) disagree here, so both outcomes are
+                        # accepted (see DESIGN.md section 11).
+                        self.soft.add("soft:single-field-view-unwrapped-width-mismatch")
+                    else:
+                        raise MustRaise(f"bit widths differ ({lw} vs {rw}) and a width check is documented")
                 if not same_shape:
                     self.soft.add("soft:same-width-different-shape")
             else:
